@@ -20,6 +20,7 @@ RULE = ("Every rule x content drawn per content-rule kind from classes whose ver
         "text with lone surrogates (judged under typed rules, totality only elsewhere).  Non-trivial: a judged (rule, content) with non-None content, or None under a "
         "non-empty rule; distinct pairs counted.")
 RULE += ("  Call forms: a fresh Rule, one Rule object kept for the whole run, and the node as an inner node of a minimal valid host tree (validate.tree from the host's root).")
+RULE += ('  Metamorphic: the node and its children dressed in prefixes / namespace maps / extras / tail text give the same verdict and codes.')
 ASSUMPTIONS = [
     "class verdicts come from how the string was constructed (grammar of canonical forms, arithmetic on bounds), not from a parser",
     "lenient spellings tolerated by Python's parsers, None under a typed rule without nonEmptyContent, and ''/whitespace under emptyContent are unspecified; "
